@@ -857,6 +857,18 @@ func runNestingHole(sec *vh.Section, c holeCase, verbose bool) {
 	if modelKind(ans[0]) != r.Kind {
 		res.Mismatch(vh.Mismatch{Section: "nesting", Function: "lql.ParseLql (nesting guard on a text with a tags token)", Input: c, Impl: r.Kind, Model: ans[0]})
 	}
+	if r.Kind == "err" {
+		// regression for the repaired finding F25b (commit 6345cd4): 200 000 levels behind the tags token are refused too, quickly
+		// (only tried when 3000 levels were refused: otherwise it would end this process)
+		big := nest(200000)
+		t0 := time.Now()
+		r2 := guarded(func() (string, error) { _, err := lql.ParseLql(big); return "", err })
+		res.Dist(sec, "nesting-hole/200000/"+r2.Kind)
+		if r2.Kind != "err" || time.Since(t0) > 2*time.Second {
+			res.SpecFail(vh.SpecFailure{Section: "nesting", Kind: "nesting-guard-bypassed", Input: holeCase{c.Prefix, 200000, c.MaxStackMB}, Impl: r2.Kind + " after " + time.Since(t0).String(),
+				Spec: "refused with an error, quickly", What: "a statement with 200 000 nested parentheses behind a tags token is not refused quickly"})
+		}
+	}
 	if r.Kind == "ok" {
 		f := vh.SpecFailure{Section: "nesting", Kind: "nesting-guard-bypassed", Input: c, Impl: "a statement with 3000 nested parentheses is accepted", Spec: "refused (limit 1000)",
 			Model: ans[0] + " class=" + ans[1], ImplEqModel: modelKind(ans[0]) == "ok", What: "the nesting limit does not hold for a text with a quote character inside a {…} tags token"}
